@@ -919,6 +919,61 @@ pub fn run(tier: &str, seed: u64, out: &Path) -> i32 {
     }
     o.direct_distinct += distinct_e2e.len() as u64;
 
+    // ---- 7b. files on disk through the real binary (explicit newline_style) --------------------------
+    // `write_file` compares the formatted text with the bytes ON DISK when the style is not Auto: a file whose only
+    // deviation is its terminators must still be rewritten.  (Auto on CRLF input is the known finding F5a.)
+    if let Some(bin) = rustfmt_bin() {
+        let dir = out.join("disk");
+        let _ = std::fs::remove_dir_all(&dir);
+        let _ = std::fs::create_dir_all(&dir);
+        let bodies: [(&str, &str); 3] = [
+            ("formatted", "mod util;\n\nfn f() {\n    let x = 1;\n    // c\n}\n"),
+            ("unformatted", "mod util;\nfn f() {\nlet x  =  1;\n\n\n\n// c\n}\n"),
+            ("formatted-with-string", "mod util;\n\nfn f() {\n    let s = \"a\\\n        b\";\n}\n"),
+        ];
+        let util = "pub fn g() {\n    h();\n}\n";
+        let mut k = 0usize;
+        for (bname, body) in bodies.iter() {
+            for term in ["lf", "crlf", "mixed"] {
+                for style in ["Unix", "Windows", "Native"] {
+                    k += 1;
+                    let d = dir.join(format!("c{}", k));
+                    let _ = std::fs::create_dir_all(&d);
+                    let redo = |t: &str| -> String {
+                        match term {
+                            "lf" => t.to_string(),
+                            "crlf" => t.replace('\n', "\r\n"),
+                            _ => {
+                                let mut s2 = String::new();
+                                for (i, l) in t.split_inclusive('\n').enumerate() {
+                                    if i % 2 == 0 { s2.push_str(&l.replace('\n', "\r\n")); } else { s2.push_str(l); }
+                                }
+                                s2
+                            }
+                        }
+                    };
+                    let main = redo(body);
+                    let ut = redo(util);
+                    let _ = std::fs::write(d.join("main.rs"), &main);
+                    let _ = std::fs::write(d.join("util.rs"), &ut);
+                    let r = run_cmd(Command::new(&bin).arg("--config").arg(format!("newline_style={}", style)).arg(d.join("main.rs")).env("LD_LIBRARY_PATH", toolchain_lib()), b"", Duration::from_secs(30));
+                    o.direct_evals += 1;
+                    o.direct_distinct += 1;
+                    o.count(&format!("disk:{}:{}:{}", bname, term, style));
+                    if r.code != Some(0) {
+                        o.direct_failures.push(json!({"sig": "c08:disk-run-failed", "what": format!("exit {:?}: {}", r.code, r.stderr.chars().take(300).collect::<String>()), "style": style, "main": main}));
+                        continue;
+                    }
+                    let want = if style == "Windows" { "windows" } else { "unix" };
+                    for f in ["main.rs", "util.rs"] {
+                        let after = std::fs::read_to_string(d.join(f)).unwrap_or_default();
+                        o.push("oracle", "nl.oracle.style(file on disk)", format!("nl.oracle.style {} {}", want, enc_str(&after)), "ok".into(), format!("{} {} terminators, newline_style={}, {} after `rustfmt main.rs`", bname, term, style, f), true);
+                    }
+                }
+            }
+        }
+    }
+
     // ---- 8. enumerated probes of known-dirty inputs -------------------------------------------------
     let one = |src: &str, cfg: &[(&str, &str)]| -> pool::FmtOut {
         let job = Job { src: src.to_string(), cfg: cfg.iter().map(|(k, v)| (k.to_string(), v.to_string())).collect(), file_lines: None };
